@@ -35,9 +35,6 @@ type lifeScen struct {
 	StopInOutage bool `json:"stopinoutage,omitempty"`
 	// Transport: "" = TCP, "ws" = WebSocket (ws://)
 	Transport string `json:"transport,omitempty"`
-	// Restart: after the first session the application stops the manager and runs it again (same StreamManager, same
-	// Client); the following rounds then happen during the second Run
-	Restart bool `json:"restart,omitempty"`
 }
 
 // lifeLink is the server side of one connection (TCP stream or WebSocket)
@@ -403,7 +400,6 @@ func lifeRunOne(w *tr.Writer, tid int, raw json.RawMessage, c *common) error {
 	runRet := make(chan error, 1)
 	stopped := false
 	when := "up"
-	extraSess := 0 // sessions that are not the result of a round (a restart)
 	runRead := false // Run's result has already been taken (first connect refused)
 	finish := func() {
 		// Stop must make Run return
@@ -480,6 +476,30 @@ func lifeRunOne(w *tr.Writer, tid int, raw json.RawMessage, c *common) error {
 		}
 		trigger := func() {
 			if ri == 0 {
+				go func() { runRet <- smgr.Run() }()
+				w.Emit(tr.Rec{"ev": "run"})
+				return
+			}
+			if rd.Drop == "restart" {
+				// Stop, then Run again: a manager (and its client) can be started again once it has stopped
+				exit0 := run.get("recv.exit")
+				w.Emit(tr.Rec{"ev": "stop"})
+				done := make(chan struct{})
+				go func() { smgr.Stop(); close(done) }()
+				select {
+				case <-done:
+				case <-time.After(4 * time.Second):
+					w.Emit(tr.Rec{"ev": "note", "stall": "Stop() did not return"})
+				}
+				select {
+				case err := <-runRet:
+					w.Emit(tr.Rec{"ev": "runret", "err": err != nil, "timely": true, "when": "restart"})
+				case <-time.After(3 * time.Second):
+					w.Emit(tr.Rec{"ev": "runret", "err": false, "timely": false, "when": "restart"})
+				}
+				// the old session has ended for the client too (it has seen the end of the stream)
+				run.waitFor(2*time.Second, func(c map[string]int) bool { return c["recv.exit"] > exit0 })
+				time.Sleep(20 * time.Millisecond)
 				go func() { runRet <- smgr.Run() }()
 				w.Emit(tr.Rec{"ev": "run"})
 				return
@@ -573,7 +593,7 @@ func lifeRunOne(w *tr.Writer, tid int, raw json.RawMessage, c *common) error {
 			dl := time.Now().Add(2 * time.Second)
 			for time.Now().Before(dl) {
 				time.Sleep(2 * time.Millisecond)
-				if int(atomic.LoadInt32(&npost)) >= ri+1+extraSess && run.get("route.end") >= ri+1+extraSess {
+				if int(atomic.LoadInt32(&npost)) >= ri+1 && run.get("route.end") >= ri+1 {
 					break
 				}
 			}
@@ -599,55 +619,6 @@ func lifeRunOne(w *tr.Writer, tid int, raw json.RawMessage, c *common) error {
 		w.Emit(tr.Rec{"ev": "quietround", "i": ri + 1, "up": up, "refusedfirst": false})
 		if hasPerm || !up {
 			break
-		}
-		if sc.Restart && ri == 0 && len(sc.Rounds) > 1 {
-			// Stop, then Run again: a manager (and its client) can be started again once it has stopped
-			w.Emit(tr.Rec{"ev": "round", "i": 100, "drop": "restart", "attempts": []string{"ok"}, "resume": sc.Rounds[1].Resume})
-			s.mu.Lock()
-			s.queue = append(s.queue[:0], "ok")
-			s.resume = sc.Rounds[1].Resume
-			s.mu.Unlock()
-			exit0 := run.get("recv.exit")
-			w.Emit(tr.Rec{"ev": "stop"})
-			done := make(chan struct{})
-			go func() { smgr.Stop(); close(done) }()
-			select {
-			case <-done:
-			case <-time.After(4 * time.Second):
-				w.Emit(tr.Rec{"ev": "note", "stall": "Stop() did not return"})
-			}
-			select {
-			case err := <-runRet:
-				w.Emit(tr.Rec{"ev": "runret", "err": err != nil, "timely": true, "when": "restart"})
-			case <-time.After(3 * time.Second):
-				w.Emit(tr.Rec{"ev": "runret", "err": false, "timely": false, "when": "restart"})
-			}
-			// the old session has ended for the client too (it has seen the end of the stream)
-			run.waitFor(2*time.Second, func(c map[string]int) bool { return c["recv.exit"] > exit0 })
-			time.Sleep(20 * time.Millisecond)
-			go func() { runRet <- smgr.Run() }()
-			w.Emit(tr.Rec{"ev": "run"})
-			up2 := false
-			select {
-			case <-s.upCh:
-				up2 = true
-			case <-time.After(4 * time.Second):
-			}
-			if up2 {
-				extraSess = 1
-				dl := time.Now().Add(2 * time.Second)
-				for time.Now().Before(dl) {
-					time.Sleep(2 * time.Millisecond)
-					if int(atomic.LoadInt32(&npost)) >= 2 && run.get("route.end") >= 2 {
-						break
-					}
-				}
-			}
-			time.Sleep(150 * time.Millisecond)
-			w.Emit(tr.Rec{"ev": "quietround", "i": 100, "up": up2, "refusedfirst": false})
-			if !up2 {
-				break
-			}
 		}
 	}
 	if sc.StopInOutage && !stopped {
@@ -695,18 +666,6 @@ func runLife(args []string) error {
 				b, _ := json.Marshal(sc)
 				tid++
 				scens = append(scens, tidScen{2000000 + tid, b})
-			}
-		}
-		if i%6 == 3 && !*kaOnly {
-			var sc lifeScen
-			if json.Unmarshal(ln, &sc) == nil && len(sc.Rounds) > 1 {
-				sc.Restart = true
-				if i%12 == 3 {
-					sc.Transport = "ws"
-				}
-				b, _ := json.Marshal(sc)
-				tid++
-				scens = append(scens, tidScen{3000000 + tid, b})
 			}
 		}
 		if i%9 == 0 || *kaOnly {
